@@ -262,21 +262,27 @@ pub fn run(ctx: &Ctx) -> (Stats, Report) {
     st.exhaustive_sections.push(format!("every multiple of 4800 months within the interval range x {} boundary dates", cyc_dates.len()));
     st.section("whole_cycle_offsets", &mut mark);
 
-    // call-order histories: all dates in descending and in scrambled order, the three types and
-    // add / sub interleaved, small offsets
+    // call-order histories: with the operation, the type and the offset held fixed, all dates
+    // in ascending, descending and scrambled order (anything a call leaves behind - a memo keyed
+    // on the month or the interval - meets the next date of the same month / an earlier one)
     let g = par_sweep(c.len() as u64, 1 << 12, |range, st| {
         let (lo, len) = (range.start, range.end - range.start);
-        for pass in 0..2u64 {
-            for k in 0..len {
-                let i = if pass == 0 { range.end - 1 - k } else { lo + (k * 2731 + 17) % len };
-                let r = &c.rows[i as usize];
-                let which = ((i + pass) % 3) as u8;
-                let t = if which == 0 { 0 } else { [0i64, 43_200_000_000, 86_399_000_000][(i % 3) as usize] };
-                for off in [1i32, 12, 13, 48, 1200] {
+        for pass in 0..3u64 {
+            for (oi, off) in [1i32, 12, 13, 48, 1200].into_iter().enumerate() {
+                let which = ((pass as usize + oi + (lo >> 12) as usize) % 3) as u8;
+                let sub = (oi + pass as usize) % 2 == 1;
+                for k in 0..len {
+                    let i = match pass {
+                        0 => lo + k,
+                        1 => range.end - 1 - k,
+                        _ => lo + (k * 2731 + 17) % len,
+                    };
+                    let r = &c.rows[i as usize];
+                    let t = if which == 0 { 0 } else { [0i64, 43_200_000_000, 86_399_000_000][(i % 3) as usize] };
                     st.evaluations += 1;
                     st.nontrivial_enum += 1;
-                    if let Err(m) = check_add_ym(which, r.n, t, off, (i + off as u64) % 2 == 0) {
-                        st.fail(i, Case::new(P, "add_ym", vec![which as i128, r.n as i128, t as i128, off as i128, ((i + off as u64) % 2 == 0) as i128], vec![]), format!("{m} [in a {} sweep: depends on earlier calls if the single call passes]", if pass == 0 { "descending" } else { "scrambled" }));
+                    if let Err(m) = check_add_ym(which, r.n, t, off, sub) {
+                        st.fail(i, Case::new(P, "add_ym", vec![which as i128, r.n as i128, t as i128, off as i128, sub as i128], vec![]), format!("{m} [in a {} sweep with type, operation and offset held fixed: depends on earlier calls if the single call passes]", ["ascending", "descending", "scrambled"][pass as usize]));
                         return;
                     }
                 }
@@ -284,7 +290,7 @@ pub fn run(ctx: &Ctx) -> (Stats, Report) {
         }
     });
     st.merge(g);
-    st.exhaustive_sections.push("all dates in descending and scrambled order x 5 offsets, types and add/sub interleaved".into());
+    st.exhaustive_sections.push("all dates in ascending, descending and scrambled order x 5 offsets with type / operation / offset held fixed along the walk".into());
     st.section("call_order_histories", &mut mark);
 
     // C: last_day_of_month, all dates (x times for timestamps)
